@@ -72,8 +72,10 @@ Definition gauss_r (c : hctx K) (r : list K) : list K := map (fun v => v / sh2 c
 (* MeasureHomodyne._apply: select = select / s ; return s * backend.measure_homodyne(...) *)
 Definition homodyne_select (c : hctx K) (sel : K) : K := sel / sh2 c.
 Definition homodyne_result (c : hctx K) (v : K) : K := sh2 c * v.
-(* MSgate._apply (avg=False): return ancillae_val / s   -- as the source stands *)
-Definition msgate_result (c : hctx K) (v : K) : K := v / sh2 c.
+(* MSgate._apply (avg=False): return ancillae_val * s   (since fix 9dd729a) *)
+Definition msgate_result (c : hctx K) (v : K) : K := sh2 c * v.
+(* before the fix: return ancillae_val / s *)
+Definition msgate_result_old (c : hctx K) (v : K) : K := v / sh2 c.
 
 (* ------------------------------------------------------------------------------------------------ *)
 (* back ends: internal convention hbar = 2 (self.circuit.hbar / self._hbar), kept as parameters
@@ -108,9 +110,11 @@ Definition st_alpha (c : hctx K) (m : K) : K := m / sq2h c.
 Definition st_dimless_cov (c : hctx K) (v : K) : K := v / (hb c / two).
 
 (* is_coherent(mode) / is_squeezed(mode) / squeezing() on a state with ONE mode: reduced_gaussian([0]) returns
-   self._cov itself (modes == list(range(self._modes))) and `cov /= self._hbar / 2` divides in place, so
-   the state's stored covariance matrix becomes: *)
-Definition is_coherent_1mode_store (c : hctx K) (cov : list (list K)) : list (list K) :=
+   self._cov itself (modes == list(range(self._modes))).  Since fix 0265ab6 the queries compute
+   `cov = cov / (self._hbar / 2)` on a new array, so the state's stored covariance matrix afterwards is: *)
+Definition is_coherent_1mode_store (c : hctx K) (cov : list (list K)) : list (list K) := cov.
+(* before the fix: `cov /= self._hbar / 2` divided the stored matrix in place *)
+Definition is_coherent_1mode_store_old (c : hctx K) (cov : list (list K)) : list (list K) :=
   map (map (st_dimless_cov c)) cov.
 
 (* mean_photon(mode): mu, cov of the reduced single mode in hbar units *)
@@ -147,10 +151,14 @@ Definition fid_expo (c : hctx K) (ar ai x p vxx vxp vpp : K) : K :=
   - (half * ((dx * dx * (vpp + hb c / two) - two * (dx * dp * vxp) + dp * dp * (vxx + hb c / two))
              / fid_det c vxx vxp vpp)).
 
-(* parity_expectation(modes) (Gaussian): ((hbar/2) ** len(modes)) * num / sqrt(det(cov)),  squared;
-   m = len(modes), the determinant is that of the covariance matrix the code uses *)
+(* parity_expectation(modes) (Gaussian): mu, cov = reduced_gaussian(sorted(modes));
+   ((hbar/2) ** len(modes)) * num / sqrt(det(cov)),  squared;  m = len(modes), detcov the determinant of the
+   2m x 2m reduced covariance matrix (since fix 5603fbf) *)
 Definition parity_sq (c : hctx K) (m : nat) (numsq detcov : K) : K :=
   kpow (hb c / two) (2 * m) * numsq / detcov.
+(* before the fix the same prefactor was divided by the determinant of the FULL 2N x 2N covariance matrix *)
+Definition parity_sq_old (c : hctx K) (m : nat) (numsq detfull : K) : K :=
+  kpow (hb c / two) (2 * m) * numsq / detfull.
 
 (* BaseFockState.quad_expectation: x = sh2 (a + a^T), p = -i sh2 (a - a^T);
    mean = Re tr(x_phi rho) = 2 sh2 sum_n sqrt(n+1) (c Re rho[n,n+1] - s Im rho[n,n+1]);
@@ -279,12 +287,8 @@ Definition rescale (lam : K) (o : op) : op :=
   | MSsingle ps k => MSsingle ps k
   end.
 
-Definition is_ms (o : op) : bool := match o with MSsingle _ _ => true | _ => false end.
 Definition scale_outcome (lam : K) (o : outcome) : outcome :=
   match o with OHomodyne v => OHomodyne (lam * v) | OAncilla v => OAncilla (lam * v) end.
-(* what the source does to the ancilla value *)
-Definition scale_outcome_impl (lam : K) (o : outcome) : outcome :=
-  match o with OHomodyne v => OHomodyne (lam * v) | OAncilla v => OAncilla (v / lam) end.
 
 (* state(): the state object built from the backend's internal means / covariance *)
 Definition state_means (c : hctx K) (m2 : list K) : list K := map (st_mu c) m2.
